@@ -26,7 +26,7 @@ static void h_setup_main(void)
   verif_argc = nondet_int();
   verif_optind = 1;
   g_diag = nondet_ulong(); g_wfail = nondet_uint();
-  g_lines_listed = nondet_ulong();
+  g_lines_listed = nondet_ulong(); g_file_failures = nondet_ulong();
   for (unsigned i = 0; i <= VERIF_ARGC_MAX; ++i) { h_args[i][15] = 0; h_argv[i] = h_args[i]; }
 }
 
